@@ -333,6 +333,175 @@ def check_strong(ck, prog):
     ck.floor("C10-STRONG", 3)
 
 
+def check_initord(ck, prog):
+    """Once the new coder is reachable from next->coder (so that lzma_next_end() / lzma_end() will call its end
+    function), every member that the end function releases must have been given a value before the init function
+    can return -- in particular before the first allocation that may fail."""
+    ck.rule("C10-INITORD", "after next->coder is published, every member released by the end function is "
+                           "initialised before any return of the init function")
+    n = 0
+    for f, rec, endname in sorted(coder_records(prog), key=lambda x: (x[0].file, x[0].line)):
+        if endname is None:
+            continue
+        file = f.file.rsplit("/", 1)[-1]
+        endf = prog.fn(endname, file)
+        rel = own.released_fields(prog, endf, rec, file)
+        if not rel:
+            continue
+        # publication site and the local that holds the new record
+        pub = None
+        var = None
+        zeroed = False
+        for b, i, e in f.iter_elems():
+            for (l, r, op, node) in ex.writes(e):
+                fk = ex.field_key(l)
+                if fk and fk[1] == "coder" and fk[0] in ("lzma_next_coder_s", "lzma_lz_decoder", "lzma_lz_encoder") \
+                        and op == "=" and r is not None and ex.strip(r).get("k") == "var":
+                    pub = (b.id, i)
+                    var = ex.strip(r)["n"]
+        if pub is None:
+            continue
+        for b, i, e in f.iter_elems():
+            for (l, r, op, node) in ex.writes(e):
+                ls = ex.strip(l)
+                if ls is not None and ls.get("k") == "var" and ls["n"] == var and r is not None and \
+                        any(c.get("fn") == "lzma_alloc_zero" for c in ex.calls(r)):
+                    zeroed = True
+        ck.saw_function(f)
+        recs = set(own.embedded_records(prog, rec))
+        for (orec, fld), how in sorted(rel.items()):
+            n += 1
+            nm = fld if orec == rec else "%s.%s" % (orec, fld)
+
+            def via(bb, ii, ee, orec=orec, fld=fld):
+                for (l, r, op, node) in ex.writes(ee):
+                    fk0 = ex.field_key(l)
+                    if fk0 and fk0[1] == "coder" and fk0[0] in ("lzma_next_coder_s", "lzma_lz_decoder",
+                                                                "lzma_lz_encoder") and r is not None and \
+                            ex.is_const(r, 0):
+                        return True        # unpublished again: next->coder = NULL
+                    for x in ex.walk(l):
+                        if x.get("k") == "mem" and x.get("rec") in recs:
+                            # a store to the member itself, to a sub-member of it, or to a by-value record that
+                            # embeds it
+                            if x.get("rec") == orec and x["f"] == fld:
+                                return True
+                    ls = ex.strip(l)
+                    if ls is not None and ls.get("k") == "mem" and orec != rec:
+                        # whole embedded record assigned (coder->mf = ...)
+                        fr = prog.records.get(ls.get("rec"))
+                        if fr:
+                            for fd_ in fr["fields"]:
+                                if fd_["n"] == ls["f"] and fd_.get("rec") == orec and "*" not in fd_["ty"]:
+                                    return True
+                for c in ex.calls(ee, into_refs=False):
+                    if c.get("fn") in ("memzero", "memset") and c["args"]:
+                        a0 = ex.strip(c["args"][0])
+                        if a0 is not None and a0.get("k") == "var" and a0["n"] == var:
+                            return True
+                    # &coder->member handed to memzero/memset or to an *_init function
+                    if c.get("fn") and (c["fn"] in ("memzero", "memset") or c["fn"].endswith("_init")):
+                        for a in c["args"][:1]:
+                            a0 = ex.strip(a)
+                            if a0 is not None and a0.get("k") == "un" and a0["op"] == "&":
+                                a0 = ex.strip(a0["e"])
+                            if a0 is not None and a0.get("k") == "mem" and a0.get("rec") == orec and a0["f"] == fld:
+                                return True
+                return False
+            if zeroed:
+                ck.ob("C10-INITORD", "%s:%s" % (f.name, nm), True, common.where(f),
+                      "%s: record allocated zero-filled, member %s is NULL from the start" % (f.name, nm),
+                      key="INITORD:%s:%s" % (f.name, nm))
+                continue
+            ok, path = cfg.must_pass(f, [pub[0]], [f.exit], via, start_elem={pub[0]: pub[1]})
+            ck.ob("C10-INITORD", "%s:%s" % (f.name, nm), ok, common.where(f),
+                  "%s: member %s (released by %s) is initialised on every path from the publication of the coder to "
+                  "a return" % (f.name, nm, endname) if ok else
+                  "%s() can return (lines %s) after next->coder points to the new %s but before member '%s' has a "
+                  "value; %s() then releases garbage" % (f.name, cfg.path_lines(f, path), rec, nm, endname),
+                  key="INITORD:%s:%s" % (f.name, nm))
+    ck.floor("C10-INITORD", 25, "obligations")
+
+
+def check_cachekey(ck, prog):
+    """`if (K != wanted) { free(P); P = alloc(); if (P == NULL) return error; K = wanted; }`: the member K that
+    says "P already has the right size" may only be updated once P is known to be non-NULL."""
+    ck.rule("C10-CACHEKEY", "a member that records the size of a cached allocation is updated only after the "
+                            "allocation succeeded")
+    n = 0
+    for f in sorted(prog.all_functions("liblzma"), key=lambda f: (f.file, f.line)):
+        if not f.blocks:
+            continue
+        doms = None
+        for b in f.blocks.values():
+            t = b.term
+            if not t or "cond" not in t or len(b.succs) != 2:
+                continue
+            c = ex.strip(t["cond"])
+            if c.get("k") != "bin" or c["op"] not in ("!=", "=="):
+                continue
+            sides = [ex.strip(c["l"]), ex.strip(c["r"])]
+            K = [s_ for s_ in sides if s_ is not None and s_.get("k") == "mem"]
+            other = [s_ for s_ in sides if s_ is not None and s_.get("k") != "mem"]
+            if len(K) != 1 or not other or ex.const_val(other[0]) is not None:
+                continue
+            K = K[0]
+            if doms is None:
+                doms = cfg.dominators(f)
+            realloc_succ = b.succs[0] if c["op"] == "!=" else b.succs[1]
+            if realloc_succ is None:
+                continue
+            region = [x for x in f.blocks if realloc_succ in doms.get(x, ())]
+            # free(P) followed by P = alloc in the region, same object as K
+            P = None
+            for x in region:
+                for e in f.blocks[x].elems:
+                    if e is None:
+                        continue
+                    for (l, r, op, node) in ex.writes(e):
+                        if r is not None and any(cc.get("fn") in ("lzma_alloc", "lzma_alloc_zero") for cc in ex.calls(r)) \
+                                and ex.strip(l).get("k") == "mem":
+                            P = (l, x, node)
+            if P is None:
+                continue
+            freed = any(cc.get("fn") == "lzma_free" and cc["args"] and ex.same(cc["args"][0], P[0])
+                        for x in region for e in f.blocks[x].elems if e for cc in ex.calls(e, into_refs=False))
+            rootK, rootP = ex.lvalue_root(K), ex.lvalue_root(P[0])
+            if not freed or rootK is None or rootP is None or rootK.get("n") != rootP.get("n"):
+                continue
+            # the NULL test of P and its success edge
+            ok_edge = None
+            for tb in f.blocks.values():
+                if not (tb.term and "cond" in tb.term and len(tb.succs) == 2):
+                    continue
+                cc = ex.strip(tb.term["cond"])
+                if cc.get("k") == "bin" and cc["op"] in ("==", "!=") and ex.same(cc["l"], P[0]) and ex.is_const(cc["r"], 0):
+                    ok_edge = tb.succs[1] if cc["op"] == "==" else tb.succs[0]
+            if ok_edge is None:
+                continue
+            n += 1
+            ck.saw_function(f)
+            bad = None
+            for x in f.blocks:
+                for e in f.blocks[x].elems:
+                    if e is None:
+                        continue
+                    for (l, r, op, node) in ex.writes(e):
+                        if ex.same(l, K) and ok_edge not in doms.get(x, ()):
+                            # stores that reset the key to "nothing cached" are fine
+                            if r is not None and ex.is_const(r, 0):
+                                continue
+                            bad = node
+            ck.ob("C10-CACHEKEY", "%s:%s" % (f.name, ex.show(K)), bad is None, common.where(f, t["cond"]),
+                  "%s: %s is compared to decide whether %s is reused; it is updated only after %s != NULL" % (
+                      f.name, ex.show(K), ex.show(P[0]), ex.show(P[0])) if bad is None else
+                  "%s(): %s (the key that lets a later call reuse %s) is stored at line %d, before the allocation of %s "
+                  "is known to have succeeded: after a failed allocation the next init skips the allocation and uses a "
+                  "NULL buffer" % (f.name, ex.show(K), ex.show(P[0]), ex.line(bad), ex.show(P[0])),
+                  key="CACHEKEY:%s:%s" % (f.name, ex.show(K)))
+    ck.floor("C10-CACHEKEY", 1)
+
+
 def run(ck):
     ck.explanation = (
         "Ownership rules decided on the AST/CFG of all 79 liblzma units: owned members of each coder record "
@@ -348,3 +517,5 @@ def run(ck):
     check_strm(ck, prog)
     check_err(ck, prog)
     check_strong(ck, prog)
+    check_initord(ck, prog)
+    check_cachekey(ck, prog)
